@@ -983,6 +983,118 @@ def _patch_restores(pkg):
 
 # ------------------------------------------------------------------ R4 KROME directive state
 
+def _inline_context_managers(fn, mod):
+    """`with K(a, b) [as v]: BODY` where K is a class of the same module with `__enter__` (and an `__init__` that only stores its
+    arguments) or a `@contextmanager` generator function of the same module: the statements K runs on entry are written in front of
+    BODY, parameters replaced by the arguments (`self.x` by what `__init__` stored).  `K(..) if c else nullcontext()` (in place or
+    through a local bound once) runs them under `c`.  What K does on exit is not part of this view.  -> a copy of `fn` (or `fn`)."""
+    import copy
+    classes = {st.name: st for st in mod.body if isinstance(st, ast.ClassDef)}
+    gens = {st.name: st for st in mod.body if isinstance(st, ast.FunctionDef) and any(ast.unparse(d).split(".")[-1] == "contextmanager" for d in st.decorator_list)}
+    once = {}
+    for n in ast.walk(fn):
+        if isinstance(n, ast.Assign) and len(n.targets) == 1 and isinstance(n.targets[0], ast.Name):
+            once.setdefault(n.targets[0].id, []).append(n.value)
+
+    def is_null(e):
+        return isinstance(e, ast.Call) and ast.unparse(e.func).split(".")[-1] == "nullcontext" and not e.args
+
+    def bind(fd, call, skip_self):
+        params = [a.arg for a in fd.args.args][1 if skip_self else 0:]
+        if fd.args.vararg or fd.args.kwarg or fd.args.kwonlyargs or any(isinstance(a, ast.Starred) for a in call.args) or any(k.arg is None for k in call.keywords) or len(call.args) > len(params):
+            return None
+        b = dict(zip(params, call.args))
+        for k in call.keywords:
+            if k.arg not in params or k.arg in b:
+                return None
+            b[k.arg] = k.value
+        for a, d in zip(params[len(params) - len(fd.args.defaults):], fd.args.defaults):
+            b.setdefault(a, d)
+        return b if set(b) == set(params) else None
+
+    def subst(stmts, names, attrs):
+        class S(ast.NodeTransformer):
+            def visit_Name(self, n):
+                return copy.deepcopy(names[n.id]) if isinstance(n.ctx, ast.Load) and n.id in names else n
+
+            def visit_Attribute(self, n):
+                if isinstance(n.value, ast.Name) and n.value.id == "self" and isinstance(n.ctx, ast.Load) and n.attr in attrs:
+                    return copy.deepcopy(attrs[n.attr])
+                return self.generic_visit(n)
+        return [S().visit(copy.deepcopy(x)) for x in stmts]
+
+    def entry(e):
+        """-> (condition | None, [statements run on entry]) or None"""
+        if isinstance(e, ast.Name) and len(once.get(e.id, ())) == 1:
+            e = once[e.id][0]
+        if isinstance(e, ast.IfExp) and (is_null(e.orelse) or is_null(e.body)):
+            inner = entry(e.body if is_null(e.orelse) else e.orelse)
+            if inner is None or inner[0] is not None:
+                return None
+            cond = e.test if is_null(e.orelse) else ast.UnaryOp(op=ast.Not(), operand=e.test)
+            return cond, inner[1]
+        if not (isinstance(e, ast.Call) and isinstance(e.func, ast.Name)):
+            return None
+        if e.func.id in gens:
+            g = gens[e.func.id]
+            b = bind(g, e, False)
+            body = [x for x in g.body if not (isinstance(x, ast.Expr) and isinstance(x.value, ast.Constant))]
+            ys = [i for i, x in enumerate(body) if isinstance(x, ast.Expr) and isinstance(x.value, ast.Yield)]
+            if b is None or len(ys) != 1 or sum(isinstance(n, (ast.Yield, ast.YieldFrom)) for x in body for n in ast.walk(x)) != 1:
+                return None
+            return None, subst(body[:ys[0]], b, {})
+        if e.func.id in classes:
+            k = classes[e.func.id]
+            ms = {x.name: x for x in k.body if isinstance(x, ast.FunctionDef)}
+            if "__enter__" not in ms or k.bases and any(ast.unparse(b_) not in ("object",) for b_ in k.bases):
+                return None
+            attrs = {}
+            if "__init__" in ms:
+                b = bind(ms["__init__"], e, True)
+                if b is None:
+                    return None
+                for x in ms["__init__"].body:
+                    if isinstance(x, ast.Expr) and isinstance(x.value, ast.Constant):
+                        continue
+                    if isinstance(x, ast.Assign) and len(x.targets) == 1 and isinstance(x.targets[0], ast.Attribute) and isinstance(x.targets[0].value, ast.Name) and x.targets[0].value.id == "self":
+                        attrs[x.targets[0].attr] = subst([ast.Expr(value=x.value)], b, attrs)[0].value
+                    else:
+                        return None
+            elif e.args or e.keywords:
+                return None
+            body = [x for x in ms["__enter__"].body if not (isinstance(x, ast.Expr) and isinstance(x.value, ast.Constant)) and not isinstance(x, ast.Return)]
+            if any(isinstance(n, ast.Return) for x in body for n in ast.walk(x)) or len(ms["__enter__"].args.args) != 1:
+                return None
+            return None, subst(body, {}, attrs)
+        return None
+
+    changed = [False]
+
+    class W(ast.NodeTransformer):
+        def visit_With(self, n):
+            self.generic_visit(n)
+            pre, keep = [], []
+            for it in n.items:
+                r = entry(it.context_expr)
+                if r is None or it.optional_vars is not None and not isinstance(it.optional_vars, ast.Name):
+                    keep.append(it)
+                    continue
+                stmts = r[1] if r[0] is None else [ast.If(test=copy.deepcopy(r[0]), body=r[1] or [ast.Pass()], orelse=[])]
+                pre.extend(stmts)
+                changed[0] = True
+            if not pre:
+                return n
+            for x in pre:
+                for y in ast.walk(x):
+                    if hasattr(y, "lineno") or isinstance(y, (ast.stmt, ast.expr)):
+                        y.lineno = y.end_lineno = n.lineno
+                        y.col_offset = y.end_col_offset = 0
+            rest = [ast.With(items=keep, body=n.body, lineno=n.lineno, col_offset=n.col_offset)] if keep else list(n.body)
+            return pre + rest
+    new = W().visit(copy.deepcopy(fn))
+    return ast.fix_missing_locations(new) if changed[0] else fn
+
+
 def krome_reset(ctx, pkg, rule="R4"):
     ci = pkg.cls("KROMEReaction")
     ctx.saw(KR, "KROMEReaction.preprocessing")
@@ -1051,7 +1163,7 @@ def krome_reset(ctx, pkg, rule="R4"):
         return out
     net = pkg.cls("Network")
     for mname in ("add_reaction_from_file", "add_reaction"):
-        fn = net.methods[mname]
+        fn = _inline_context_managers(net.methods[mname], pkg.modules[NF])       # the reset may be the entry of a `with` block
         fl = Flow(fn, NF)
         init_calls = [f for f in fl.facts if f.kind == "call" and f.target == "initialize" and f.value is not None and f.value[0] == "meth" and not f.value[3]]
         reads_lines = [n.lineno for n in ast.walk(fn) if isinstance(n, ast.Call) and ast.unparse(n.func) == "self._add_reaction"]
@@ -1081,7 +1193,16 @@ def krome_reset(ctx, pkg, rule="R4"):
                           "decodes the next one", expected=f"{_src(recv)[:60]}.initialize() on every path that reads", found=" and ".join(extra))
                 continue
         ok = len(init_calls) == 1 and bool(reads_lines) and init_calls[0].line < min(reads_lines)
-        ctx.check(ok, rule, f"Network.{mname}:initialize before reading", (NF, fn.lineno), "the format class is initialised before any line is parsed")
+        # a violation needs positive evidence: the one reset call stands after the first parse, or no `.initialize()` is written
+        # anywhere in the module (the call was removed).  A reset that lives elsewhere in the module (a context manager entered by
+        # `with`, a session object) or several reset calls are a shape this rule does not follow
+        elsewhere = any(isinstance(n, ast.Call) and isinstance(n.func, ast.Attribute) and n.func.attr == "initialize" for n in ast.walk(pkg.modules[NF]))
+        if ok or (len(init_calls) == 1 and reads_lines) or (not init_calls and not elsewhere):
+            ctx.check(ok, rule, f"Network.{mname}:initialize before reading", (NF, fn.lineno), "the format class is initialised before any line is parsed")
+        else:
+            ctx.unrec(rule, f"Network.{mname}:initialize before reading", (NF, fn.lineno),
+                      f"found {len(init_calls)} direct initialize() call(s) and {len(reads_lines)} self._add_reaction call(s) in the method" + ("; a reset is written elsewhere in the module" if elsewhere and not init_calls else "")
+                      + ": where the format class is reset relative to the parsing is not understood")
         # ... for EVERY file / string: the only condition it may depend on is that the format class exists
         if len(init_calls) == 1:
             f = init_calls[0]
